@@ -15,11 +15,14 @@ MC_AxisQuatsThorough == MC_AxisQuatsQuick \cup
                      { <<1,-1,0,0>>, <<1,0,1,0>>, <<1,2,1,0>>, <<3,1,1,1>>,
                        <<2,1,1,1>>, <<1,2,1,1>>, <<1,1,2,1>> }
 
+(* the motion model composes the axis rotation with a skew rotation: denominators multiply, so   *)
+(* the axes over 7 stay out of it (TLC integers are 32-bit; TLC reports overflow, it does not wrap) *)
+MC_AxisQuatsMotionThorough == MC_AxisQuatsThorough \ { <<2,1,1,1>>, <<1,2,1,1>>, <<1,1,2,1>> }
 MC_Bases == { <<0,0,0,1>>, <<1,-1,0,1>> }
 MC_OneBase == { <<1,-1,0,1>> }
 MC_OnePoint == { <<0,0,0,1>> }
 MC_Empty == {}
-MC_Points == { <<x, y, z, 2>> : x \in {-5,-2,0,1,4}, y \in {-4,-1,0,3}, z \in {-5,-3,0,2,5} }
+MC_Points == { <<x, y, z, 2>> : x \in {-5,0,1,4}, y \in {-4,-1,0,3}, z \in {-5,-3,0,2,5} }
 MC_PointsThorough == { <<x, y, z, 2>> : x \in {-5,-3,-2,0,1,4}, y \in {-4,-2,-1,0,3,5}, z \in {-5,-3,-1,0,2,5} }
 MC_CubeQuats == { <<1,1,0,0>>, <<1,0,1,0>> }               \* quarter turns about x and y generate the cube group
 MC_SkewQuats == { <<1,1,1,0>>, <<2,1,0,0>> }               \* matrices over 3 and over 5
@@ -27,7 +30,7 @@ MC_Shifts == { <<1,-2,3,1>>, <<-1,0,1,2>> }
 
 Small == {-3, -1, 0, 1, 2}
 MC_StartsQuick == { <<x, y, z, 1>> : x \in {-3, 0, 1}, y \in {-1, 0, 2}, z \in {-3, -1, 0, 1, 2} }
-MC_StartsThorough == { <<x, y, z, 1>> : x \in Small, y \in Small, z \in -3..3 }
+MC_StartsThorough == { <<x, y, z, 1>> : x \in Small, y \in Small, z \in Small }
 UnitDirs(S) == { <<x, y, z, n>> \in {<<x, y, z, n>> : x \in -7..7, y \in -7..7, z \in -7..7, n \in S} :
                    /\ Abs(x) <= n /\ Abs(y) <= n /\ Abs(z) <= n
                    /\ Sq(x) + Sq(y) + Sq(z) = Sq(n)
